@@ -1,20 +1,22 @@
 /-
   Group-level consequences of the twisted Edwards addition law on JubJub.
 
-  Proved outright (pure algebra): commutativity, neutral element, inverses, closure of
-  `smulF`.  NOT proved: associativity and the group order — they are packaged in the hypothesis
-  structure `JubjubGroupFacts` (a `Prop`-valued structure, not an axiom).  Under it the curve
-  points form an `AddCommGroup`, `smulF` is its `nsmul`, and the MSB-first double-and-add ladder
-  computes the scalar multiple (`ladder_is_scalar_mul`).
+  Proved outright (pure algebra): commutativity, neutral element, inverses, closure of `smulF`
+  and — via `EdwardsAssoc.lean` — associativity.  Hence the curve points form a genuine
+  `AddCommGroup` (`CurvePt`), `smulF`/`zsmulF` are its `nsmul`/`zsmul`, and the MSB-first
+  double-and-add ladder computes the scalar multiple (`ladder_is_scalar_mul`), all WITHOUT any
+  hypothesis.  NOT proved: the group order `8·r_J`; it is the only field of the hypothesis
+  structure `JubjubGroupFacts` (a `Prop`-valued structure: an explicit hypothesis, nothing is
+  postulated), used only for `[r_J]([8]Q) = O`.
 -/
 import Mathlib.Algebra.Group.Basic
-import Plonk.Proofs.Edwards
+import Plonk.Proofs.EdwardsAssoc
 import Plonk.Generated
 
 namespace Plonk
 open Plonk
 
-/-! ### Facts that need no hypothesis -/
+/-! ### Commutativity, neutral element, inverses -/
 
 theorem addF_comm (p q : PtF) : addF p q = addF q p := by
   unfold addF
@@ -85,18 +87,19 @@ def zsmulF : ℤ → PtF → PtF
   | Int.ofNat n, p => smulF n p
   | Int.negSucc n, p => negF (smulF (n+1) p)
 
-/-! ### The hypothesis structure -/
+@[simp] theorem zsmulF_natCast (n : ℕ) (p : PtF) : zsmulF (n : ℤ) p = smulF n p := rfl
+@[simp] theorem zsmulF_zero (p : PtF) : zsmulF 0 p = idF := rfl
+@[simp] theorem zsmulF_one (p : PtF) : zsmulF 1 p = p := smulF_one p
+@[simp] theorem zsmulF_neg_one (p : PtF) : zsmulF (-1) p = negF p := by
+  show negF (smulF 1 p) = negF p
+  rw [smulF_one]
 
-/-- What is **assumed, not proved** about the JubJub group: associativity of the addition law
-    on curve points, and that the group order `8·r_J` kills every point. -/
-structure JubjubGroupFacts : Prop where
-  assoc : ∀ p q r : PtF, OnCurveP p → OnCurveP q → OnCurveP r →
-    addF (addF p q) r = addF p (addF q r)
-  order : ∀ p : PtF, OnCurveP p → smulF (8 * RJ) p = idF
+theorem zsmulF_on_curve (z : ℤ) {p : PtF} (hp : OnCurveP p) : OnCurveP (zsmulF z p) := by
+  cases z with
+  | ofNat n => exact smulF_on_curve n hp
+  | negSucc n => exact neg_on_curveP (smulF_on_curve (n+1) hp)
 
-namespace JubjubGroupFacts
-variable (H : JubjubGroupFacts)
-include H
+/-! ### Scalar-multiple laws (use associativity, which is proved in `EdwardsAssoc.lean`) -/
 
 theorem smulF_add (m n : ℕ) {p : PtF} (hp : OnCurveP p) :
     smulF (m + n) p = addF (smulF m p) (smulF n p) := by
@@ -104,31 +107,78 @@ theorem smulF_add (m n : ℕ) {p : PtF} (hp : OnCurveP p) :
   | zero => simp [addF_id]
   | succ n ih =>
     rw [← Nat.add_assoc, smulF_succ, ih, smulF_succ,
-      H.assoc _ _ _ (smulF_on_curve m hp) (smulF_on_curve n hp) hp]
+      addF_assoc (smulF_on_curve m hp) (smulF_on_curve n hp) hp]
 
 theorem smulF_mul (m n : ℕ) {p : PtF} (hp : OnCurveP p) :
     smulF (m * n) p = smulF m (smulF n p) := by
   induction m with
   | zero => simp
-  | succ m ih => rw [Nat.succ_mul, H.smulF_add _ _ hp, ih, smulF_succ]
+  | succ m ih => rw [Nat.succ_mul, smulF_add _ _ hp, ih, smulF_succ]
 
 theorem smulF_double (n : ℕ) {p : PtF} (hp : OnCurveP p) :
     smulF (2 * n) p = addF (smulF n p) (smulF n p) := by
-  rw [two_mul, H.smulF_add _ _ hp]
+  rw [two_mul, smulF_add _ _ hp]
+
+/-! ### Curve points as an abelian group -/
+
+/-- points of the curve -/
+structure CurvePt where
+  val : PtF
+  on : OnCurveP val
+
+namespace CurvePt
+
+instance : Zero CurvePt := ⟨⟨idF, id_on_curveP⟩⟩
+instance : Add CurvePt := ⟨fun p q => ⟨addF p.1 q.1, add_on_curveP p.2 q.2⟩⟩
+instance : Neg CurvePt := ⟨fun p => ⟨negF p.1, neg_on_curveP p.2⟩⟩
+
+@[simp] theorem val_zero : (0 : CurvePt).1 = idF := rfl
+@[simp] theorem val_add (p q : CurvePt) : (p + q).1 = addF p.1 q.1 := rfl
+@[simp] theorem val_neg (p : CurvePt) : (-p).1 = negF p.1 := rfl
+
+@[ext] theorem ext {p q : CurvePt} (h : p.1 = q.1) : p = q := by
+  cases p; cases q; simp only at h; subst h; rfl
+
+/-- the abelian group of JubJub curve points over `F` (no hypothesis) -/
+instance addCommGroup : AddCommGroup CurvePt where
+  add_assoc p q r := CurvePt.ext (addF_assoc p.2 q.2 r.2)
+  zero_add p := CurvePt.ext (id_addF p.1)
+  add_zero p := CurvePt.ext (addF_id p.1)
+  nsmul n p := ⟨smulF n p.1, smulF_on_curve n p.2⟩
+  nsmul_zero _ := rfl
+  nsmul_succ _ _ := rfl
+  zsmul z p := ⟨zsmulF z p.1, zsmulF_on_curve z p.2⟩
+  zsmul_zero' _ := rfl
+  zsmul_succ' _ _ := rfl
+  zsmul_neg' _ _ := rfl
+  neg_add_cancel p := CurvePt.ext (neg_addF p.2)
+  add_comm p q := CurvePt.ext (addF_comm p.1 q.1)
+
+@[simp] theorem val_nsmul (n : ℕ) (p : CurvePt) : (n • p).1 = smulF n p.1 := rfl
+@[simp] theorem val_zsmul (z : ℤ) (p : CurvePt) : (z • p).1 = zsmulF z p.1 := rfl
+
+end CurvePt
 
 theorem smulF_addF (n : ℕ) {p q : PtF} (hp : OnCurveP p) (hq : OnCurveP q) :
-    smulF n (addF p q) = addF (smulF n p) (smulF n q) := by
-  induction n with
-  | zero => simp [addF_id]
-  | succ n ih =>
-    have hn := smulF_on_curve n hp
-    have hm := smulF_on_curve n hq
-    rw [smulF_succ, ih, smulF_succ, smulF_succ,
-      H.assoc _ _ _ hn hm (add_on_curveP hp hq),
-      H.assoc _ _ _ hn hp (add_on_curveP hm hq),
-      ← H.assoc _ _ _ hm hp hq, ← H.assoc _ _ _ hp hm hq, addF_comm (smulF n q) p]
+    smulF n (addF p q) = addF (smulF n p) (smulF n q) :=
+  congrArg CurvePt.val (nsmul_add (⟨p, hp⟩ : CurvePt) ⟨q, hq⟩ n)
 
-end JubjubGroupFacts
+theorem zsmulF_add (m n : ℤ) {p : PtF} (hp : OnCurveP p) :
+    zsmulF (m + n) p = addF (zsmulF m p) (zsmulF n p) :=
+  congrArg CurvePt.val (add_zsmul (⟨p, hp⟩ : CurvePt) m n)
+
+theorem zsmulF_mul (m n : ℤ) {p : PtF} (hp : OnCurveP p) :
+    zsmulF (m * n) p = zsmulF m (zsmulF n p) :=
+  congrArg CurvePt.val (mul_zsmul (⟨p, hp⟩ : CurvePt) m n)
+
+theorem zsmulF_neg (m : ℤ) {p : PtF} (hp : OnCurveP p) :
+    zsmulF (-m) p = negF (zsmulF m p) :=
+  congrArg CurvePt.val (neg_zsmul (⟨p, hp⟩ : CurvePt) m)
+
+theorem addF_left_cancel {p q r : PtF} (hp : OnCurveP p) (hq : OnCurveP q) (hr : OnCurveP r)
+    (h : addF p q = addF p r) : q = r := by
+  have : (⟨p, hp⟩ : CurvePt) + ⟨q, hq⟩ = ⟨p, hp⟩ + ⟨r, hr⟩ := CurvePt.ext h
+  exact congrArg CurvePt.val (add_left_cancel this)
 
 /-! ### The MSB-first double-and-add ladder -/
 
@@ -163,31 +213,28 @@ theorem ladderF_on_curve {P : PtF} (hP : OnCurveP P) (bits : List Bool) {acc : P
   | nil => exact ha
   | cons b bs ih => exact ih (ladderStepF_on_curve hP ha b)
 
-theorem JubjubGroupFacts.ladderStep_smul (H : JubjubGroupFacts) {P : PtF} (hP : OnCurveP P)
-    (n : ℕ) (b : Bool) :
+theorem ladderStep_smul {P : PtF} (hP : OnCurveP P) (n : ℕ) (b : Bool) :
     ladderStepF P (smulF n P) b = smulF (2 * n + b.toNat) P := by
   unfold ladderStepF
-  rw [H.smulF_add _ _ hP, H.smulF_double _ hP]
+  rw [smulF_add _ _ hP, smulF_double _ hP]
   cases b <;> simp
 
 /-- **ladder_is_scalar_mul** (general accumulator): starting from `[n]P`, the ladder over `bits`
     ends in `[bitsValMSB bits n]P`. -/
-theorem JubjubGroupFacts.ladder_from (H : JubjubGroupFacts) {P : PtF} (hP : OnCurveP P)
-    (bits : List Bool) (n : ℕ) :
+theorem ladder_from {P : PtF} (hP : OnCurveP P) (bits : List Bool) (n : ℕ) :
     ladderF P bits (smulF n P) = smulF (bitsValMSB bits n) P := by
   induction bits generalizing n with
   | nil => rfl
-  | cons b bs ih => rw [ladderF_cons, H.ladderStep_smul hP, ih, bitsValMSB_cons]
+  | cons b bs ih => rw [ladderF_cons, ladderStep_smul hP, ih, bitsValMSB_cons]
 
 /-- **ladder_is_scalar_mul**: the MSB-first double-and-add ladder from the identity computes the
-    scalar multiple (defined by repeated addition) by the number the bits denote. -/
-theorem JubjubGroupFacts.ladder_is_scalar_mul (H : JubjubGroupFacts) {P : PtF}
-    (hP : OnCurveP P) (bits : List Bool) :
+    scalar multiple (defined by repeated addition) by the number the bits denote.
+    Unconditional: associativity is proved. -/
+theorem ladder_is_scalar_mul {P : PtF} (hP : OnCurveP P) (bits : List Bool) :
     ladderF P bits idF = smulF (bitsValMSB bits 0) P := by
-  have := H.ladder_from hP bits 0
+  have := ladder_from hP bits 0
   simpa using this
 
-/-- `bitsValMSB` of the reversed little-endian bit list is the usual binary value -/
 theorem bitsValMSB_append (bs cs : List Bool) (n : ℕ) :
     bitsValMSB (bs ++ cs) n = bitsValMSB cs (bitsValMSB bs n) := by
   unfold bitsValMSB; rw [List.foldl_append]
@@ -205,6 +252,7 @@ def bitsValLE : List Bool → ℕ
   | [] => 0
   | b :: bs => b.toNat + 2 * bitsValLE bs
 
+/-- `bitsValMSB` of the reversed little-endian bit list is the usual binary value -/
 theorem bitsValMSB_reverse (bits : List Bool) : bitsValMSB bits.reverse 0 = bitsValLE bits := by
   induction bits with
   | nil => rfl
@@ -219,130 +267,30 @@ theorem bitsValLE_lt (bits : List Bool) : bitsValLE bits < 2 ^ bits.length := by
     rw [bitsValLE, List.length_cons, pow_succ]
     cases b <;> simp <;> omega
 
-/-! ### Curve points as an abelian group (under the hypothesis structure)
-
-`CurvePt` carries `0`, `+`, `-` unconditionally; the group *laws* need `JubjubGroupFacts`, so
-the `AddCommGroup` structure is a definition taking the hypothesis, to be installed locally with
-`letI := CurvePt.addCommGroup H`. Its `nsmul`/`zsmul` are `smulF`/`zsmulF`. -/
-
-/-- points of the curve -/
-structure CurvePt where
-  val : PtF
-  on : OnCurveP val
-
-theorem zsmulF_on_curve (z : ℤ) {p : PtF} (hp : OnCurveP p) : OnCurveP (zsmulF z p) := by
-  cases z with
-  | ofNat n => exact smulF_on_curve n hp
-  | negSucc n => exact neg_on_curveP (smulF_on_curve (n+1) hp)
-
-namespace CurvePt
-
-instance : Zero CurvePt := ⟨⟨idF, id_on_curveP⟩⟩
-instance : Add CurvePt := ⟨fun p q => ⟨addF p.1 q.1, add_on_curveP p.2 q.2⟩⟩
-instance : Neg CurvePt := ⟨fun p => ⟨negF p.1, neg_on_curveP p.2⟩⟩
-
-@[simp] theorem val_zero : (0 : CurvePt).1 = idF := rfl
-@[simp] theorem val_add (p q : CurvePt) : (p + q).1 = addF p.1 q.1 := rfl
-@[simp] theorem val_neg (p : CurvePt) : (-p).1 = negF p.1 := rfl
-
-@[ext] theorem ext {p q : CurvePt} (h : p.1 = q.1) : p = q := by
-  cases p; cases q; simp only at h; subst h; rfl
-
-/-- the abelian group of curve points, given associativity -/
-@[reducible] def addCommGroup (H : JubjubGroupFacts) : AddCommGroup CurvePt where
-  add_assoc p q r := CurvePt.ext (H.assoc p.1 q.1 r.1 p.2 q.2 r.2)
-  zero_add p := CurvePt.ext (id_addF p.1)
-  add_zero p := CurvePt.ext (addF_id p.1)
-  nsmul n p := ⟨smulF n p.1, smulF_on_curve n p.2⟩
-  nsmul_zero _ := rfl
-  nsmul_succ _ _ := rfl
-  zsmul z p := ⟨zsmulF z p.1, zsmulF_on_curve z p.2⟩
-  zsmul_zero' _ := rfl
-  zsmul_succ' _ _ := rfl
-  zsmul_neg' _ _ := rfl
-  neg_add_cancel p := CurvePt.ext (neg_addF p.2)
-  add_comm p q := CurvePt.ext (addF_comm p.1 q.1)
-
-theorem val_nsmul (H : JubjubGroupFacts) (n : ℕ) (p : CurvePt) :
-    (letI := addCommGroup H; (n • p)).1 = smulF n p.1 := rfl
-
-theorem val_zsmul (H : JubjubGroupFacts) (z : ℤ) (p : CurvePt) :
-    (letI := addCommGroup H; (z • p)).1 = zsmulF z p.1 := rfl
-
-end CurvePt
-
-namespace JubjubGroupFacts
-variable (H : JubjubGroupFacts)
-include H
-
-theorem zsmulF_add (m n : ℤ) {p : PtF} (hp : OnCurveP p) :
-    zsmulF (m + n) p = addF (zsmulF m p) (zsmulF n p) := by
-  let _ := CurvePt.addCommGroup H
-  exact congrArg CurvePt.val (add_zsmul (⟨p, hp⟩ : CurvePt) m n)
-
-theorem zsmulF_mul (m n : ℤ) {p : PtF} (hp : OnCurveP p) :
-    zsmulF (m * n) p = zsmulF m (zsmulF n p) := by
-  let _ := CurvePt.addCommGroup H
-  exact congrArg CurvePt.val (mul_zsmul (⟨p, hp⟩ : CurvePt) m n)
-
-theorem zsmulF_neg (m : ℤ) {p : PtF} (hp : OnCurveP p) :
-    zsmulF (-m) p = negF (zsmulF m p) := by
-  let _ := CurvePt.addCommGroup H
-  exact congrArg CurvePt.val (neg_zsmul (⟨p, hp⟩ : CurvePt) m)
-
-theorem addF_left_cancel {p q r : PtF} (hp : OnCurveP p) (hq : OnCurveP q) (hr : OnCurveP r)
-    (h : addF p q = addF p r) : q = r := by
-  let _ := CurvePt.addCommGroup H
-  have : (⟨p, hp⟩ : CurvePt) + ⟨q, hq⟩ = ⟨p, hp⟩ + ⟨r, hr⟩ := CurvePt.ext h
-  exact congrArg CurvePt.val (add_left_cancel this)
-
-end JubjubGroupFacts
-
-@[simp] theorem zsmulF_natCast (n : ℕ) (p : PtF) : zsmulF (n : ℤ) p = smulF n p := rfl
-@[simp] theorem zsmulF_zero (p : PtF) : zsmulF 0 p = idF := rfl
-@[simp] theorem zsmulF_one (p : PtF) : zsmulF 1 p = p := smulF_one p
-@[simp] theorem zsmulF_neg_one (p : PtF) : zsmulF (-1) p = negF p := by
-  show negF (smulF 1 p) = negF p
-  rw [smulF_one]
-
 /-! ### Doubling chains and the cofactor -/
 
-theorem JubjubGroupFacts.smulF_pow_two_succ (H : JubjubGroupFacts) (k : ℕ) {p : PtF}
-    (hp : OnCurveP p) : smulF (2 ^ (k+1)) p = addF (smulF (2 ^ k) p) (smulF (2 ^ k) p) := by
-  rw [pow_succ, mul_comm, H.smulF_double _ hp]
+theorem smulF_pow_two_succ (k : ℕ) {p : PtF} (hp : OnCurveP p) :
+    smulF (2 ^ (k+1)) p = addF (smulF (2 ^ k) p) (smulF (2 ^ k) p) := by
+  rw [pow_succ, mul_comm, smulF_double _ hp]
 
 /-- three doublings are multiplication by the cofactor `8` -/
-theorem JubjubGroupFacts.dbl3_eq_smul8 (H : JubjubGroupFacts) {q : PtF} (hq : OnCurveP q) :
+theorem dbl3_eq_smul8 {q : PtF} (hq : OnCurveP q) :
     addF (addF (addF q q) (addF q q)) (addF (addF q q) (addF q q)) = smulF 8 q := by
   have h1 : smulF 2 q = addF q q := smulF_two q
-  have h2 : smulF 4 q = addF (smulF 2 q) (smulF 2 q) := H.smulF_double 2 hq
-  have h3 : smulF 8 q = addF (smulF 4 q) (smulF 4 q) := H.smulF_double 4 hq
+  have h2 : smulF 4 q = addF (smulF 2 q) (smulF 2 q) := smulF_double 2 hq
+  have h3 : smulF 8 q = addF (smulF 4 q) (smulF 4 q) := smulF_double 4 hq
   rw [h3, h2, h1]
 
 theorem RJ_eight_inv : 8 * Generated.EIGHT_INV % RJ = 1 := by decide +kernel
 
-/-- `[r_J]([8]Q) = O` for every curve point (group order `8·r_J`) -/
-theorem JubjubGroupFacts.smul_RJ_smul_eight (H : JubjubGroupFacts) {q : PtF} (hq : OnCurveP q) :
-    smulF RJ (smulF 8 q) = idF := by
-  rw [← H.smulF_mul _ _ hq, mul_comm]; exact H.order q hq
-
 /-- a curve point killed by `r_J` is `[8]` of a curve point, namely of `[8⁻¹ mod r_J]P`
     (the host-side witness of `assert_torsion_free_point`) -/
-theorem JubjubGroupFacts.eight_smul_eight_inv (H : JubjubGroupFacts) {p : PtF} (hp : OnCurveP p)
-    (hk : smulF RJ p = idF) : smulF 8 (smulF Generated.EIGHT_INV p) = p := by
-  rw [← H.smulF_mul _ _ hp]
+theorem eight_smul_eight_inv {p : PtF} (hp : OnCurveP p) (hk : smulF RJ p = idF) :
+    smulF 8 (smulF Generated.EIGHT_INV p) = p := by
+  rw [← smulF_mul _ _ hp]
   have h := Nat.div_add_mod (8 * Generated.EIGHT_INV) RJ
   rw [RJ_eight_inv] at h
-  rw [← h, H.smulF_add _ _ hp, mul_comm, H.smulF_mul _ _ hp, hk, smulF_id, smulF_one, id_addF]
-
-/-- **subgroup boundary**: `P ∈ [8]·E(F_r)` iff `P` is on the curve and `[r_J]P = O` -/
-theorem JubjubGroupFacts.mem_eight_iff (H : JubjubGroupFacts) (p : PtF) :
-    (∃ q : PtF, OnCurveP q ∧ smulF 8 q = p) ↔ OnCurveP p ∧ smulF RJ p = idF := by
-  constructor
-  · rintro ⟨q, hq, rfl⟩
-    exact ⟨smulF_on_curve 8 hq, H.smul_RJ_smul_eight hq⟩
-  · rintro ⟨hp, hk⟩
-    exact ⟨smulF Generated.EIGHT_INV p, smulF_on_curve _ hp, H.eight_smul_eight_inv hp hk⟩
+  rw [← h, smulF_add _ _ hp, mul_comm, smulF_mul _ _ hp, hk, smulF_id, smulF_one, id_addF]
 
 /-! ### Signed-digit accumulation (fixed-base ladder) -/
 
@@ -353,24 +301,58 @@ def signedAccF (G : PtF) (l : List (ℤ × ℕ)) (acc : PtF) : PtF :=
 /-- the integer the digits denote: `Σ eᵢ·kᵢ` -/
 def signedSum (l : List (ℤ × ℕ)) : ℤ := (l.map fun ek => ek.1 * (ek.2 : ℤ)).sum
 
-theorem JubjubGroupFacts.signedAcc_from (H : JubjubGroupFacts) {G : PtF} (hG : OnCurveP G)
-    (l : List (ℤ × ℕ)) (z : ℤ) :
+theorem signedAcc_from {G : PtF} (hG : OnCurveP G) (l : List (ℤ × ℕ)) (z : ℤ) :
     signedAccF G l (zsmulF z G) = zsmulF (z + signedSum l) G := by
   induction l generalizing z with
   | nil => simp [signedAccF, signedSum]
   | cons ek l ih =>
     have step : addF (zsmulF z G) (zsmulF ek.1 (smulF ek.2 G)) = zsmulF (z + ek.1 * ek.2) G := by
-      rw [H.zsmulF_add _ _ hG, H.zsmulF_mul _ _ hG, zsmulF_natCast]
+      rw [zsmulF_add _ _ hG, zsmulF_mul _ _ hG, zsmulF_natCast]
     show signedAccF G l (addF (zsmulF z G) (zsmulF ek.1 (smulF ek.2 G))) = _
     rw [step, ih]
     congr 1
     simp [signedSum]; ring
 
-/-- the fixed-base accumulation from the identity computes `[Σ eᵢ·kᵢ]G` -/
-theorem JubjubGroupFacts.signedAcc_is_scalar_mul (H : JubjubGroupFacts) {G : PtF}
-    (hG : OnCurveP G) (l : List (ℤ × ℕ)) :
+/-- the fixed-base accumulation from the identity computes `[Σ eᵢ·kᵢ]G` (unconditional) -/
+theorem signedAcc_is_scalar_mul {G : PtF} (hG : OnCurveP G) (l : List (ℤ × ℕ)) :
     signedAccF G l idF = zsmulF (signedSum l) G := by
-  have := H.signedAcc_from hG l 0
+  have := signedAcc_from hG l 0
   simpa using this
+
+/-! ### The hypothesis structure: what is NOT proved -/
+
+/-- What is **assumed, not proved** about the JubJub group: the group order `8·r_J` kills every
+    curve point.  (Associativity, originally planned as a field here, is proved:
+    `addF_assoc`.) -/
+structure JubjubGroupFacts : Prop where
+  order : ∀ p : PtF, OnCurveP p → smulF (8 * RJ) p = idF
+
+namespace JubjubGroupFacts
+
+/-- kept for reference: associativity holds outright, with or without the hypothesis -/
+theorem assoc (_ : JubjubGroupFacts) (p q r : PtF) (hp : OnCurveP p) (hq : OnCurveP q)
+    (hr : OnCurveP r) : addF (addF p q) r = addF p (addF q r) := addF_assoc hp hq hr
+
+/-- `[r_J]([8]Q) = O` for every curve point (group order `8·r_J`) -/
+theorem smul_RJ_smul_eight (H : JubjubGroupFacts) {q : PtF} (hq : OnCurveP q) :
+    smulF RJ (smulF 8 q) = idF := by
+  rw [← smulF_mul _ _ hq, mul_comm]; exact H.order q hq
+
+/-- **subgroup boundary**: `P ∈ [8]·E(F_r)` iff `P` is on the curve and `[r_J]P = O`.
+    Only the direction `→` uses the hypothesis. -/
+theorem mem_eight_iff (H : JubjubGroupFacts) (p : PtF) :
+    (∃ q : PtF, OnCurveP q ∧ smulF 8 q = p) ↔ OnCurveP p ∧ smulF RJ p = idF := by
+  constructor
+  · rintro ⟨q, hq, rfl⟩
+    exact ⟨smulF_on_curve 8 hq, H.smul_RJ_smul_eight hq⟩
+  · rintro ⟨hp, hk⟩
+    exact ⟨smulF Generated.EIGHT_INV p, smulF_on_curve _ hp, eight_smul_eight_inv hp hk⟩
+
+/-- the ladder statement in the form announced in the design (the hypothesis is not used) -/
+theorem ladder_is_scalar_mul (_ : JubjubGroupFacts) {P : PtF} (hP : OnCurveP P)
+    (bits : List Bool) : ladderF P bits idF = smulF (bitsValMSB bits 0) P :=
+  Plonk.ladder_is_scalar_mul hP bits
+
+end JubjubGroupFacts
 
 end Plonk
